@@ -18,6 +18,9 @@ func init() {
 		ruleFreezeHandshake(r, "C08.FROZEN")
 		ruleMerge(r, "C08")
 		ruleStoreParams(r, "C08.PARAMS", k)
+		if ruleBuilders(r, "C08.BLD", k.SearchT) < 11 {
+			r.add("C08.BLD", "floor", "-", "fewer than 11 builder methods on the persistent search type", Floor)
+		}
 		r.FloorCheck("C08.SEQ.flush", 6)
 		r.FloorCheck("C08.SEQ.search", 4)
 		rulePolarity(r, "C08.POLARITY", k)
